@@ -8,16 +8,30 @@ mod handles;
 mod replay;
 mod rng;
 mod trace;
+mod traces;
 
 use std::panic;
 
+thread_local! {
+    static GUARD_DEPTH: std::cell::Cell<usize> = const { std::cell::Cell::new(0) };
+}
+
+/// panics inside `guarded` (code under test) are data and stay silent; the harness's own
+/// panics are printed
 pub fn quiet_panics() {
-    panic::set_hook(Box::new(|_| {}));
+    panic::set_hook(Box::new(|info| {
+        if GUARD_DEPTH.with(|d| d.get()) == 0 {
+            eprintln!("harness panic: {info}");
+        }
+    }));
 }
 
 /// run `f`, turning a panic into Err(message): a panic in the code under test is data
 pub fn guarded<T>(f: impl FnOnce() -> T + panic::UnwindSafe) -> Result<T, String> {
-    panic::catch_unwind(f).map_err(|e| {
+    GUARD_DEPTH.with(|d| d.set(d.get() + 1));
+    let r = panic::catch_unwind(f);
+    GUARD_DEPTH.with(|d| d.set(d.get() - 1));
+    r.map_err(|e| {
         if let Some(s) = e.downcast_ref::<&str>() {
             s.to_string()
         } else if let Some(s) = e.downcast_ref::<String>() {
